@@ -711,7 +711,37 @@ fn history_partitions(hist: &[SgrOp], max_cuts: usize, mut f: impl FnMut(&[usize
     for parts in extra {
         count += 1;
         if !f(&parts) {
-            break;
+            return count;
+        }
+    }
+    // a write that ends inside the text of the sequence BEFORE the last one (with and without the sequence itself
+    // in the same write), so that the rest of the character arrives together with the next escape sequence; the
+    // remainder whole and cut once more at every position
+    if lens.len() >= 2 {
+        let tl = TEXT.len_utf8();
+        let (head, two) = lens.split_at(lens.len() - 2);
+        let (pl, n) = (two[0], two[1]);
+        for split_seq in [true, false] {
+            for third in 0..n {
+                let mut parts: Vec<usize> = head.to_vec();
+                if split_seq {
+                    parts.push(pl - tl);
+                    parts.push(1);
+                } else {
+                    parts.push(pl - tl + 1);
+                }
+                let rest = tl - 1 + n;
+                if third == 0 {
+                    parts.push(rest);
+                } else {
+                    parts.push(tl - 1 + third);
+                    parts.push(n - third);
+                }
+                count += 1;
+                if !f(&parts) {
+                    return count;
+                }
+            }
         }
     }
     count
